@@ -217,7 +217,7 @@ impl Prop for C05 {
                 replicas[i].role = format!("env-{}", replicas[i].role);
             }
         }
-        let derive = rng.pick(&["Serialize, Deserialize", "", "Debug", "Debug, Clone, Debug", "Serialize, Deserialize, Debug, Serialize", "B, A, C, A, B"]).to_string();
+        let derive = rng.pick(&["Serialize, Deserialize", "", "Debug", "Debug, Clone, Debug", "Serialize, Deserialize, Debug, Serialize", "B, A, C, A, B", "serde::Serialize, serde::Deserialize", "some::very::long::qualified::path::to::a::derive::macro::that::goes::on::and::on::and::on::for::more::than::a::hundred::columns::Trait"]).to_string();
         Scenario::Session(Session { alts: vec![None; docs.len()], docs, replicas, opts: all_opts(&derive) })
     }
     fn exec(&self, sc: &Scenario, ctr: &mut Ctr) -> Result<Exec, String> {
